@@ -15,6 +15,7 @@ increase (effective = `r` attribute if present, else previous + 1).
 import XlModel.Lemmas.Readers
 import XlModel.Lemmas.ReadersLoad
 import XlModel.ReadersState
+import XlModel.ReadersRender
 import XlModel.Lemmas.Grid4
 
 deriving instance DecidableEq for Except
@@ -181,6 +182,70 @@ theorem searchSheet_finds_exactly (s : Sheet) (h : WF s) (hg : InGrid 0 s) (need
     (∃ l, searchSheet s needle = .ok l ∧ ((c, r) ∈ l ↔ value s c r = needle)) :=
   ⟨hits needle 0 s, searchSheet_spec s h hg needle, mem_hits_iff needle hne s 0 c r h⟩
 
+/-! ## Typed cells: what `val` is -/
+
+/-- every reader renders a cell through the one function `getValueFrom`: its callers in the
+source are exactly the four read paths (`GetCellValue`'s closure, `Rows.rowXMLHandler`,
+`Cols.rowXMLHandler`, `searchSheet`) plus two writers that read a value back. -/
+theorem render_call_sites : Facts.C04.getValueFromCallers =
+    ["Cols.rowXMLHandler", "File.GetCellValue", "File.SetCellFormula", "File.searchSheet",
+     "Rows.rowXMLHandler", "StreamWriter.getRowValues"] := by decide
+
+/-- `getValueFrom` on an unstyled cell, by cell type: booleans, dates, errors and numbers show
+their stored text in raw mode, a boolean shows TRUE/FALSE in formatted mode, a formula string is
+`bstrUnmarshal` of its stored text, an inline string is `xlsxSI.String()` of its `<is>`, a shared
+string is the item its index names and its own text when the index is outside the table. -/
+theorem render_by_type (sst : List SI) (raw : Bool) (c : TCell) :
+    (c.t = .d ∨ c.t = .e ∨ c.t = .n → render sst raw c = c.v) ∧
+    (c.t = .b → render sst true c = c.v) ∧
+    (c.t = .b → c.v = ['1'] → render sst false c = "TRUE".toList) ∧
+    (c.t = .b → c.v = ['0'] → render sst false c = "FALSE".toList) ∧
+    (c.t = .str → render sst raw c = Bstr.unmarshal c.v) ∧
+    (c.t = .inlineStr → ∀ x, c.is = some x → render sst raw c = x.str) ∧
+    (c.t = .s → ∀ (i : Nat) (x : SI), c.v ≠ [] → sIndex c.v = (i : Int) → sst[i]? = some x →
+      render sst raw c = x.str) ∧
+    (c.t = .s → ∀ (i : Nat), sIndex c.v = (i : Int) → sst.length ≤ i → render sst raw c = c.v) := by
+  refine ⟨?_, ?_, ?_, ?_, ?_, ?_, ?_, ?_⟩
+  · rintro (h | h | h) <;> simp [render, h]
+  · intro h; simp [render, h]
+  · intro h hv; simp [render, h, hv]
+  · intro h hv; simp [render, h, hv]
+  · intro h; simp [render, h]
+  · intro h x hx; simp [render, h, hx]
+  · intro h i x hv hi hx
+    have hlt : i < sst.length := by
+      rcases Nat.lt_or_ge i sst.length with h1 | h1
+      · exact h1
+      · rw [List.getElem?_eq_none h1] at hx; cases hx
+    have h0 : (0 : Int) ≤ (i : Int) := Int.natCast_nonneg i
+    have hget : sst[i] = x := by
+      have := List.getElem?_eq_getElem hlt
+      rw [this] at hx; exact Option.some.inj hx
+    simp [render, h, hv, hi, hlt, h0, hget]
+  · intro h i hi hle
+    by_cases hv : c.v = []
+    · simp [render, h, hv]
+    · have : ¬ i < sst.length := by omega
+      simp [render, h, hv, hi, this]
+
+/-- clause "the value of a cell is the same whichever read interface is used", for typed cells:
+with every cell rendered by `render` (shared, inline, formula strings, booleans, errors, dates,
+numbers; raw or formatted), `GetRows`, `GetCols`, literal `SearchSheet` and — on the cached form —
+`GetCellValue` all show the rendered text of the cell at that position. -/
+theorem typed_readers_agree (sst : List SI) (raw : Bool) (ts : List TRow)
+    (h : WF (toSheet sst raw ts)) (ha : RowAttrsOK (toSheet sst raw ts))
+    (hc : Consistent 0 (toSheet sst raw ts)) (c r : Nat) (h1 : 1 ≤ c) (h2 : 1 ≤ r) :
+    cellOf (getRows (toSheet sst raw ts)) c r = value (toSheet sst raw ts) c r ∧
+    cellOfCols (getCols (toSheet sst raw ts)) c r = value (toSheet sst raw ts) c r ∧
+    (Explicit (toSheet sst raw ts) →
+      getCellValue (toSheet sst raw ts) c r = value (toSheet sst raw ts) c r) ∧
+    (InGrid 0 (toSheet sst raw ts) → ∀ needle, needle ≠ [] →
+      ∃ l, searchSheet (toSheet sst raw ts) needle = .ok l ∧
+        ((c, r) ∈ l ↔ value (toSheet sst raw ts) c r = needle)) :=
+  ⟨readers_agree _ h ha c r h1 h2, getCols_agrees _ h hc c r h1 h2,
+    fun he => getCellValue_agrees _ h he c r,
+    fun hg needle hne => searchSheet_finds_exactly _ h hg needle hne c r⟩
+
 /-! ## Reading never changes the workbook (the modelled state-passing getters) -/
 
 /-- clause "read-only calls are pure", `GetCellStyle`: the cached worksheet after the
@@ -297,6 +362,32 @@ theorem rless_hidden_kept :
     afterLoad [⟨0, false, [⟨0, 0, ['a'], false, false⟩]⟩, ⟨0, true, [⟨0, 0, ['b'], false, false⟩]⟩]
       (fun s' => rowVisible s' 1 && !rowVisible s' 2) = true := by decide
 
+/-- from "caching succeeds, keeps the invariant, makes references explicit and preserves the
+grid" to what the readers show before and after caching -/
+theorem load_obs (s : Sheet) (h : WF s) (hb : RowAttrsOK s) (hc : Consistent 0 s) (hg : InGrid 0 s)
+    (hl : ∃ s', load s = .ok s' ∧ WF s' ∧ Explicit s' ∧ ∀ c k, value s' c k = value s c k) :
+    ∃ s', load s = .ok s' ∧ WF s' ∧ Explicit s' ∧
+      (∀ c r, getCellValue s' c r = value s c r) ∧
+      (∀ c r, 1 ≤ c → 1 ≤ r → cellOf (getRows s') c r = cellOf (getRows s) c r) ∧
+      (∀ c r, 1 ≤ c → 1 ≤ r → cellOfCols (getCols s') c r = cellOfCols (getCols s) c r) ∧
+      (∀ needle, needle ≠ [] → ∃ l l', searchSheet s needle = .ok l ∧
+        searchSheet s' needle = .ok l' ∧ ∀ c r, (c, r) ∈ l' ↔ (c, r) ∈ l) := by
+  obtain ⟨s', hl, hwf, hex, hv⟩ := hl
+  have hb' := rowAttrsOK_of_explicit s' hex
+  have hc' := consistent_of_explicit s' 0 hex
+  have hg' := inGrid_of_explicit s' 0 hex
+  refine ⟨s', hl, hwf, hex, fun c r => ?_, fun c r h1 h2 => ?_, fun c r h1 h2 => ?_,
+    fun needle hne => ?_⟩
+  · rw [getCellValue_agrees s' hwf hex c r, hv]
+  · rw [readers_agree s' hwf hb' c r h1 h2, readers_agree s h hb c r h1 h2, hv]
+  · rw [getCols_agrees s' hwf hc' c r h1 h2, getCols_agrees s h hc c r h1 h2, hv]
+  · refine ⟨hits needle 0 s, hits needle 0 s', searchSheet_spec s h hg needle,
+      searchSheet_spec s' hwf hg' needle, fun c r => ?_⟩
+    rw [mem_hits_iff needle hne s' 0 c r hwf, mem_hits_iff needle hne s 0 c r h]
+    have := hv c r
+    unfold value at this
+    rw [this]
+
 /-- clause "read-only calls … leave the result of every later read unchanged", for the state
 change every first getter performs: caching a worksheet opened from a file (`checkSheet`,
 `checkSheetR0`, `checkRow` as the code does them now, with the greatest-column sizing and
@@ -316,22 +407,25 @@ theorem load_pure_partial (s : Sheet) (h : WF s) (ha : AllR s) (hb : RowAttrsOK 
       (∀ c r, 1 ≤ c → 1 ≤ r → cellOf (getRows s') c r = cellOf (getRows s) c r) ∧
       (∀ c r, 1 ≤ c → 1 ≤ r → cellOfCols (getCols s') c r = cellOfCols (getCols s) c r) ∧
       (∀ needle, needle ≠ [] → ∃ l l', searchSheet s needle = .ok l ∧
-        searchSheet s' needle = .ok l' ∧ ∀ c r, (c, r) ∈ l' ↔ (c, r) ∈ l) := by
-  obtain ⟨s', hl, hwf, hex, hv⟩ := load_allR s h ha hb hc hg
-  have hb' := rowAttrsOK_of_explicit s' hex
-  have hc' := consistent_of_explicit s' 0 hex
-  have hg' := inGrid_of_explicit s' 0 hex
-  refine ⟨s', hl, hwf, hex, fun c r => ?_, fun c r h1 h2 => ?_, fun c r h1 h2 => ?_,
-    fun needle hne => ?_⟩
-  · rw [getCellValue_agrees s' hwf hex c r, hv]
-  · rw [readers_agree s' hwf hb' c r h1 h2, readers_agree s h hb c r h1 h2, hv]
-  · rw [getCols_agrees s' hwf hc' c r h1 h2, getCols_agrees s h hc c r h1 h2, hv]
-  · refine ⟨hits needle 0 s, hits needle 0 s', searchSheet_spec s h hg needle,
-      searchSheet_spec s' hwf hg' needle, fun c r => ?_⟩
-    rw [mem_hits_iff needle hne s' 0 c r hwf, mem_hits_iff needle hne s 0 c r h]
-    have := hv c r
-    unfold value at this
-    rw [this]
+        searchSheet s' needle = .ok l' ∧ ∀ c r, (c, r) ∈ l' ↔ (c, r) ∈ l) :=
+  load_obs s h hb hc hg (load_allR s h ha hb hc hg)
+
+/-- the same clause for the other common shape of "files with missing `r` attributes": a
+worksheet written without **any** `r` attribute, on rows and on cells (rows and cells are
+numbered by their position). The invariant, the row-attribute guard and the consistency of
+references hold automatically; only "inside the grid" is assumed. `load` goes through the
+`checkSheetR0` path (`r0Rows`, `r0Cells`): it only numbers the rows, then `checkRow` gives every
+cell its reference; every reader answers as before. Sheets mixing rows with and without `r`
+remain unproved (transcript and `purity:*-after-load` oracle only). -/
+theorem load_pure_noRefs (s : Sheet) (hn : NoRefs s) (hg : InGrid 0 s) :
+    ∃ s', load s = .ok s' ∧ WF s' ∧ Explicit s' ∧
+      (∀ c r, getCellValue s' c r = value s c r) ∧
+      (∀ c r, 1 ≤ c → 1 ≤ r → cellOf (getRows s') c r = cellOf (getRows s) c r) ∧
+      (∀ c r, 1 ≤ c → 1 ≤ r → cellOfCols (getCols s') c r = cellOfCols (getCols s) c r) ∧
+      (∀ needle, needle ≠ [] → ∃ l l', searchSheet s needle = .ok l ∧
+        searchSheet s' needle = .ok l' ∧ ∀ c r, (c, r) ∈ l' ↔ (c, r) ∈ l) :=
+  load_obs s (wf_noRefs s 0 hn) (rowAttrsOK_noRefs s hn) (consistent_noRefs s 0 hn) hg
+    (load_noRefs s hn hg)
 
 /-- `load_pure_examples`: on the witness shapes of the other classes (all references
 present with gaps; no references at all) caching leaves `GetRows` unchanged. The
@@ -382,6 +476,17 @@ theorem nonvacuous_load :
   · simp [AllR]
   · simp [RowAttrsOK, Facts.TotalRows]
   · simp [Consistent, RefsOK, effRow]
+  · simp [InGrid, InGridCells, effRow, effCol, Facts.MaxColumns, Facts.TotalRows]
+
+/-- the hypotheses of `load_pure_noRefs` are satisfiable (a hidden row and an empty row included) -/
+theorem nonvacuous_noRefs :
+    let s : Sheet := [⟨0, false, [⟨0, 0, ['a'], false, false⟩, ⟨0, 0, [], false, true⟩]⟩,
+                      ⟨0, true, []⟩, ⟨0, false, [⟨0, 0, ['c'], true, false⟩]⟩]
+    NoRefs s ∧ InGrid 0 s ∧
+    afterLoad s (fun s' => s'.map (·.r) == [1, 2, 3] && !rowVisible s' 2 &&
+      getCellValue s' 1 3 == ['c']) = true := by
+  refine ⟨?_, ?_, by decide⟩
+  · simp [NoRefs, CellsNoRef]
   · simp [InGrid, InGridCells, effRow, effCol, Facts.MaxColumns, Facts.TotalRows]
 
 /-- an `Explicit` (cached-form) sheet satisfying the invariant exists -/
